@@ -162,6 +162,88 @@ func ruleRecoveredPanicIsAnError(c *Check, rule string, pkgs ...string) {
 		reach, _ := engine.PathExists(lit, rec, isRet, engine.PathQuery{CutEdge: recovered, CutInstr: handled, Shallow: true})
 		c.Require(!reach, rule, key, "a recovered panic re-panics or is stored as an error where the caller sees it", "the deferred recover() can swallow a panic without leaving an error where the caller will see it (the variable it writes, if any, is a local whose value was already returned): the function returns the zero value of its results — for a pool task that is 'cache hit, no error', so a target that blew up counts as finished and its dependants start", c.P.InstrPos(rec))
 	}
+	// the recovering function as a named helper that is deferred directly and receives the address of the error
+	// cell (`defer recoverAsError(&err)`): on the recovered branch it re-panics or stores through that pointer,
+	// and every defer site hands it the address of a named result (or of a variable that outlives the host)
+	for _, h := range c.P.Funcs {
+		if h.Parent() != nil || !inAnyPackage(h, pkgs...) {
+			continue
+		}
+		var rec *ssa.Call
+		for _, s := range engine.SitesIn(h) {
+			if b, ok := s.Common().Value.(*ssa.Builtin); ok && b.Name() == "recover" {
+				if call, isCall := s.(*ssa.Call); isCall {
+					rec = call
+				}
+			}
+		}
+		if rec == nil {
+			continue
+		}
+		var deferSites []*ssa.Defer
+		for _, cs := range c.G.CallersOf(h) {
+			if d, ok := cs.(*ssa.Defer); ok {
+				deferSites = append(deferSites, d)
+			}
+		}
+		if len(deferSites) == 0 {
+			continue
+		}
+		n++
+		key := "recovered-panic-is-an-error/" + c.P.FuncName(h)
+		errParams := map[ssa.Value]int{}
+		for i, p := range h.Params {
+			if pt, ok := p.Type().Underlying().(*types.Pointer); ok && pt.Elem().String() == "error" {
+				errParams[p] = i
+			}
+		}
+		recovered := engine.CutEdgesWhere(func(a engine.Atom) bool {
+			return a.Op == "nil" && engine.OriginsAllFromCall(a.V, map[ssa.CallInstruction]int{rec: 0}, false)
+		})
+		handled := func(in ssa.Instruction) bool {
+			switch x := in.(type) {
+			case *ssa.Panic:
+				return true
+			case *ssa.Store:
+				if _, ok := errParams[x.Addr]; ok {
+					return !isNilConstValue(x.Val)
+				}
+			}
+			return false
+		}
+		isRet := func(in ssa.Instruction) bool { _, ok := in.(*ssa.Return); return ok }
+		reach, _ := engine.PathExists(h, rec, isRet, engine.PathQuery{CutEdge: recovered, CutInstr: handled, Shallow: true})
+		bad := ""
+		if reach {
+			bad = "the recovering helper can return after a recovered panic without re-panicking or storing an error through its error pointer"
+		}
+		for _, d := range deferSites {
+			host := d.Parent()
+			named := map[string]bool{}
+			res := host.Signature.Results()
+			for i := 0; i < res.Len(); i++ {
+				if res.At(i).Name() != "" && res.At(i).Name() != "_" {
+					named[res.At(i).Name()] = true
+				}
+			}
+			for _, idx := range errParams {
+				if idx >= len(d.Call.Args) {
+					continue
+				}
+				okArg := false
+				switch x := d.Call.Args[idx].(type) {
+				case *ssa.Alloc:
+					okArg = named[x.Comment]
+				case *ssa.FreeVar:
+					okArg = true
+				}
+				if !okArg {
+					bad = "at " + c.P.InstrPos(d) + " the helper is handed the address of a local that is not a named result: the error it stores is lost when the function returns"
+				}
+			}
+		}
+		c.Require(bad == "", rule, key, "a recovered panic re-panics or is stored through the error pointer, which every defer site points at a named result", bad+": a recovered panic turns into the zero value of the results — for a pool task 'cache hit, no error'", c.P.InstrPos(rec))
+	}
 	if n == 0 {
 		c.Unknown(rule, "recovered-panic-is-an-error", "no deferred recover() found: the rule lost its subject", "-")
 	}
